@@ -11,9 +11,12 @@ connection, connection state, effect on the abstract broker) is tied to `/repo` 
 regenerated facts of `Nsq.Tie.Proto` (dispatch table, every `New(Fatal)ClientErr` call site, limit
 comparisons, regex literal) and by the byte-stream correspondence harness `harness/e3`.
 
-Every statement quantifies over ALL byte sequences, all option values (`Conf`, including an
-arbitrary JSON decoder `Conf.decode` and arbitrary TLS / auth gate inputs), all connection states
-and all broker states.
+Every statement quantifies over ALL byte sequences, all values of the limits in `Conf` (including an
+arbitrary JSON decoder `Conf.decode` and arbitrary TLS / auth gate inputs, constant per `Conf`), all
+connection states and all broker states — of the BASE model: no consumer limit, no failing backend
+write, the gate a constant. The model with those inputs (`Nsq.Model.ProtoEnv`: every step is an
+`exec` step under a configuration computed from the connection's authorization state) and the option
+preconditions of `messagePump`'s tickers are in `Nsq.Props.C09Audit`.
 -/
 namespace Nsq.Props.C09
 open Nsq.Model.ProtoV2 Nsq.Model.Names Nsq.Model.Base10 Nsq.Model Nsq.Spec.ProtoSpec
@@ -149,10 +152,13 @@ theorem fatal_stops_the_loop (conf : Conf) (fuel : Nat) (s : ConnState) (b : Bro
   rw [loop]
   simp only [hl, h]
 
-/-- What any connection is answered (frames, end, final state, accepted effects) is a function of
-its own bytes, the options and its own state — not of the broker, hence not of whatever other
-connections (well-behaved or hostile) did to the broker before or meanwhile. -/
-theorem answers_independent_of_broker (conf : Conf) (s : ConnState) (b b' : Broker) (bs : Bytes) :
+/-- BASE MODEL ONLY (audit round 7, B7): in `exec` no reply reads the broker, so this holds by the
+construction of the base model — it says nothing about `--max-channel-consumers`, where the real SUB
+reads the channel's client count (E_SUB_FAILED). The statement about the real inputs is
+`Nsq.Props.C09Audit`: `answers_independent_of_broker_partial` (hypothesis: the option is 0, the
+default), `answers_independent_of_broker_full_false` (limit 1: same bytes, OK vs E_SUB_FAILED),
+`sub_limit_exact`, `sub_failed_iff_limit`, `answer_reads_broker_only_through_limit`. -/
+theorem answers_independent_of_broker_base (conf : Conf) (s : ConnState) (b b' : Broker) (bs : Bytes) :
     rview (serve conf s b bs) = rview (serve conf s b' bs) :=
   serve_indep conf s b b' bs
 
@@ -165,9 +171,13 @@ theorem rejected_publish_enqueues_nothing (conf : Conf) (s : ConnState) (b : Bro
     Untouched b (exec conf s b ps rest).broker ∧ (exec conf s b ps rest).eff = [] :=
   exec_err conf s b ps rest c h
 
-/-- MPUB either enqueues the whole batch it decoded — all messages, in order, each within the
-limits — and answers OK, or answers a fatal error and enqueues nothing. -/
-theorem mpub_all_or_nothing (conf : Conf) (s : ConnState) (b : Broker) (ps : List Bytes) (rest : Bytes) :
+/-- BASE MODEL ONLY (audit round 7, B4): MPUB either enqueues the whole batch it decoded — all
+messages, in order, each within the limits — and answers OK, or answers a fatal error and enqueues
+nothing. The base model's `publish` cannot fail, which is why this holds; with a failing backend
+write the real `Topic.PutMessages` leaves a prefix enqueued: `Nsq.Props.C09Audit`
+`mpub_all_or_nothing_partial` (hypothesis: no failing write), `mpub_all_or_nothing_full_false`,
+`publish_fault_prefix_exact` (open finding `mpub-partial-on-backend-fault`). -/
+theorem mpub_all_or_nothing_base (conf : Conf) (s : ConnState) (b : Broker) (ps : List Bytes) (rest : Bytes) :
     (∃ t n r bodies r2, ps[1]? = some t ∧ readLen rest = some (n, r) ∧ 1 ≤ n ∧ n ≤ conf.maxBodySize ∧
         Mpub.readMPUB conf.maxMsgSize conf.maxBodySize (r.take n.toNat) = .ok bodies r2 ∧
         (mpub conf s b ps rest).reply = some .ok ∧ (mpub conf s b ps rest).ctl = .cont ∧
